@@ -23,7 +23,7 @@ TECHNIQUE = ('runtime monitoring: post-condition oracle (popcount parity on '
              'stacks with planted uint8-wrap overlaps')
 MANIFEST_TEXT = ('All 4^n x 4^n operator pairs for n<=3 are pushed through '
                  'bs_prod in every pair of accepted representations (list, 6 '
-                 'integer dtypes, csr) and shapes (1-D, (1,2n), stacked) and '
+                 'integer dtypes, csr, csr with stored zeros) and shapes (1-D, (1,2n), stacked) and '
                  'compared with an independent popcount oracle; random '
                  'stacks to n=600 with overlaps >255; converters round-trip '
                  'and cross-agree on all strings of length <=4 and random '
@@ -43,11 +43,11 @@ REQUIRED_COUNTERS = ['bs_prod_calls', 'table_cells_checked',
                      'uint8_wrap_overlaps_checked']
 EXHAUSTIVE = True
 EXHAUSTIVE_SCOPE = ('bs_prod on all operator pairs for n<=3 (thorough; n<=2 '
-                    'plus stacked n=3 in quick) x 8x8 representation pairs x '
+                    'plus stacked n=3 in quick) x 9x9 representation pairs x '
                     'shape pairs; converters on all strings of length <=4')
 
 DTYPES = ['uint8', 'int8', 'uint16', 'int32', 'int64', 'uint64']
-KINDS = ['list'] + DTYPES + ['csr']
+KINDS = ['list'] + DTYPES + ['csr', 'csr0']
 
 
 def all_paulis(n):
@@ -64,13 +64,22 @@ def as_kind(M, kind, shape):
         v = M[0]
         if kind == 'list':
             return [int(x) for x in v]
-        if kind == 'csr':
+        if kind in ('csr', 'csr0'):
             return None                      # csr is always 2-D
         return v.astype(kind)
     if kind == 'list':
         return [[int(x) for x in r] for r in M]
     if kind == 'csr':
         return csr_matrix(M.astype('uint8'))
+    if kind == 'csr0':
+        # a product formed in sparse form (the library's own idiom
+        # `r = p + q; r.data %= 2`): carries explicitly stored zeros
+        g = np.random.default_rng(int(M.sum()) * 7919 + M.size)
+        P = (g.random(M.shape) < 0.5).astype('uint8')
+        Q = (M.astype('uint8') ^ P)
+        r = csr_matrix(P) + csr_matrix(Q)
+        r.data %= 2
+        return r.tocsr()
     return M.astype(kind)
 
 
@@ -94,7 +103,7 @@ def check_call(out, A, B, ka, kb, sa, sb, tag):
             'shapes': [sa, sb], 'ma': A.shape[0], 'mb': B.shape[0],
             'ops': gf2.digest_arrays(A, B) if hasattr(gf2, 'digest_arrays')
             else [int(x) for x in (A.sum(), B.sum(), A.shape[0], B.shape[0])]}
-    mech = f'bs_prod/{"sparse" if "csr" in (ka, kb) else "dense"}'
+    mech = f'bs_prod/{"sparse" if "csr" in ka + kb else "dense"}'
     try:
         r = bpauli.bs_prod(a, b)
     except Exception as e:
@@ -224,6 +233,8 @@ def random_block(out, rng, tier):
             check_call(out, A, B, 'uint8', 'csr', 'stack', 'stack',
                        f'planted-overlap-{ov}')
             check_call(out, A, B, 'csr', 'csr', 'stack', 'stack',
+                       f'planted-overlap-{ov}')
+            check_call(out, A[0:1], B, 'csr0', 'csr0', 'row', 'stack',
                        f'planted-overlap-{ov}')
             check_call(out, A, B, 'int8', 'int8', 'stack', 'stack',
                        f'planted-overlap-{ov}')
@@ -460,7 +471,7 @@ def plan(tier, seed):
             for kb in KINDS:
                 tasks.append({'kind': 'exh', 'n': 3, 'ka': [ka], 'kb': [kb],
                               'singles': 'pairs',
-                              'cost': 60 if 'csr' in (ka, kb) else 25})
+                              'cost': 60 if 'csr' in ka + kb else 25})
     nrand = 4 if tier == 'quick' else 16
     for i in range(nrand):
         tasks.append({'kind': 'random', 'i': i, 'seed': seed, 'tier': tier,
